@@ -4,11 +4,11 @@ CONSTANTS
   MaxT = 2
   Types = {"f", "h"}
   MaxBlocks = 2
-  MaxSamples = 3
+  MaxSamples = 2
   MaxTombs = 1
-  MaxOuts = 2
+  MaxOuts = 1
   MaxOps = 100
-  Features = {"range", "restage"}
+  Features = {"range"}
   EmitMode = "none"
 VIEW View
 INVARIANTS TypeOK ContentPreserved NoEmptyBlocks
